@@ -114,8 +114,8 @@ def check_against_reference(ctx, case, doc, text, op, variables, result, ref, wi
             "data:list-length" if isinstance(a, str) and a.startswith("len") else "data:value"
         ctx.violation(prefix + kind, witness, "at %r library=%r model=%r" % (list(path), a, b))
         return True
-    want = sorted([p for p, _k in errors], key=repr)
-    got = error_paths(result)
+    want = refexec.drop_under_aborted(sorted([p for p, _k in errors], key=repr), ref[3])
+    got = refexec.drop_under_aborted(error_paths(result), ref[3])
     if want != got:
         ctx.violation(prefix + "errors:paths-differ", witness, "library=%r model=%r" % (got[:6], want[:6]))
         return True
